@@ -56,6 +56,11 @@ pub struct Case {
     /// sibling traffic sent before every frame of the case (vf/shadow.rs)
     #[serde(default)]
     pub shadow: Option<Shadow>,
+    /// IPv6 extension headers (Hop-by-Hop / Routing / Destination Options / atomic Fragment) put in
+    /// front of the judged request's transport. Not answered today; should they ever be, the reply
+    /// must be the mirror image of the request all the same
+    #[serde(default)]
+    pub ext6: Option<Vec<(u8, u8, u8)>>,
 }
 
 /// STUN messages for an established STUN flow: any class / method, CHANGE-REQUEST inside
@@ -85,8 +90,9 @@ pub fn ip_tcp_tweak() -> impl Strategy<Value = IpTweak> {
 }
 
 pub fn case_strategy() -> impl Strategy<Value = Case> {
-    (case_strategy0(), shadow_opt()).prop_map(|(mut c, sh)| {
+    (case_strategy0(), shadow_opt(), prop::option::weighted(0.06, vec((prop::sample::select(vec![0u8, 60, 44, 44, 43]), prop_oneof![2 => Just(0u8), 1 => 1u8..4, 1 => any::<u8>()], 0u8..3), 1..4))).prop_map(|(mut c, sh, ext6)| {
         c.shadow = sh;
+        c.ext6 = ext6;
         c
     })
 }
@@ -120,7 +126,7 @@ fn case_strategy0() -> impl Strategy<Value = Case> {
                     _ => {}
                 }
             }
-            Case { shadow: None, scn, hist, req, req_csum, alias_mac, ip_tweak, opts, self_addressed, vlan, prev }
+            Case { shadow: None, ext6: None, scn, hist, req, req_csum, alias_mac, ip_tweak, opts, self_addressed, vlan, prev }
         })
     })
 }
@@ -188,6 +194,12 @@ pub fn run_case(c: &Case, st: &mut Stats) -> Option<(Vec<u8>, Vec<u8>)> {
         if let Some(f2) = insert_options(&reqf, io, to) {
             reqf = f2;
             st.class(&format!("request-with-options:ip4={}:tcp={}", if io.is_empty() { "none" } else { "present" }, if to.is_empty() { "none" } else { "present" }));
+        }
+    }
+    if let Some(h) = &c.ext6 {
+        if let Some(f2) = insert_ext6(&reqf, h) {
+            reqf = f2;
+            st.class("request-behind-ipv6-extension-headers");
         }
     }
     if let Some(v) = c.req_csum {
